@@ -1,0 +1,224 @@
+//go:build verif
+
+package immutable
+
+import (
+	"errors"
+	"fmt"
+	"math/bits"
+
+	"github.com/csgura/fp"
+)
+
+// Verification hooks (build tag verif): a structural invariant walker for the trie.
+// It only reads; it is never called by the library itself.
+
+// VerifCensus counts what a walk over a trie has seen.
+type VerifCensus struct {
+	Array, Bitmap, HashArray, Value, Collision int // node kinds
+	Entries                                    int // key/value pairs reachable
+	CollisionEntries                           int // pairs stored in collision nodes
+	MaxDepth                                   int // depth of the deepest node (root = 0)
+	RootKind                                   string
+}
+
+// ErrVerifNotHamt is returned when the value is not backed by this package's trie.
+var ErrVerifNotHamt = errors.New("not backed by immutable.hamt")
+
+// VerifCheck walks the trie behind base and checks its structural invariants.
+func VerifCheck[K, V any](base fp.MapBase[K, V]) (VerifCensus, error) {
+	m, ok := base.(*hamt[K, V])
+	if !ok {
+		return VerifCensus{}, ErrVerifNotHamt
+	}
+	return verifCheckHamt(m)
+}
+
+// VerifCheckSet walks the trie behind a set created by this package.
+func VerifCheckSet[T any](s fp.SetMinimal[T]) (VerifCensus, error) {
+	st, ok := s.(set[T])
+	if !ok {
+		return VerifCensus{}, ErrVerifNotHamt
+	}
+	return VerifCheck(st.m)
+}
+
+func verifCheckHamt[K, V any](m *hamt[K, V]) (VerifCensus, error) {
+	var c VerifCensus
+	if m == nil {
+		return c, errors.New("nil *hamt")
+	}
+	if m.root == nil {
+		c.RootKind = "nil"
+		if m.size != 0 {
+			return c, fmt.Errorf("size=%d but root is nil", m.size)
+		}
+		return c, nil
+	}
+	if m.hasher == nil {
+		return c, errors.New("non-empty trie without hasher")
+	}
+	c.RootKind = verifKind[K, V](m.root)
+	if err := verifWalk(m.root, 0, 0, 0, m.hasher, &c); err != nil {
+		return c, err
+	}
+	if c.Entries != m.size {
+		return c, fmt.Errorf("size=%d but %d entries reachable", m.size, c.Entries)
+	}
+	return c, nil
+}
+
+func verifKind[K, V any](n mapNode[K, V]) string {
+	switch n.(type) {
+	case *mapArrayNode[K, V]:
+		return "array"
+	case *mapBitmapIndexedNode[K, V]:
+		return "bitmap"
+	case *mapHashArrayNode[K, V]:
+		return "hasharray"
+	case *mapValueNode[K, V]:
+		return "value"
+	case *mapHashCollisionNode[K, V]:
+		return "collision"
+	}
+	return fmt.Sprintf("%T", n)
+}
+
+// prefix/mask: the hash bits fixed by the path from the root down to this node.
+func verifWalk[K, V any](n mapNode[K, V], depth int, prefix, mask uint32, h fp.Hashable[K], c *VerifCensus) error {
+	if depth > c.MaxDepth {
+		c.MaxDepth = depth
+	}
+	if depth > 8 {
+		return fmt.Errorf("depth %d exceeds the 32-bit hash", depth)
+	}
+	shift := uint(depth * mapNodeBits)
+	checkKey := func(where string, key K, stored uint32, hasStored bool) error {
+		kh := h.Hash(key)
+		if hasStored && kh != stored {
+			return fmt.Errorf("%s at depth %d: stored keyHash %#x != Hash(key) %#x (key %v)", where, depth, stored, kh, key)
+		}
+		if kh&mask != prefix {
+			return fmt.Errorf("%s at depth %d: key %v with hash %#x sits under path prefix %#x/mask %#x", where, depth, key, kh, prefix, mask)
+		}
+		return nil
+	}
+	switch node := n.(type) {
+	case nil:
+		return fmt.Errorf("nil child at depth %d", depth)
+	case *mapArrayNode[K, V]:
+		c.Array++
+		if node == nil {
+			return fmt.Errorf("typed-nil array node at depth %d", depth)
+		}
+		if depth != 0 {
+			return fmt.Errorf("array node at depth %d (only the root may be one)", depth)
+		}
+		if len(node.entries) == 0 {
+			return errors.New("empty array node")
+		}
+		if len(node.entries) > maxArrayMapSize {
+			return fmt.Errorf("array node with %d entries", len(node.entries))
+		}
+		for i := range node.entries {
+			for j := 0; j < i; j++ {
+				if h.Eqv(node.entries[i].key, node.entries[j].key) {
+					return fmt.Errorf("array node holds Eqv keys at %d and %d (%v)", j, i, node.entries[i].key)
+				}
+			}
+		}
+		c.Entries += len(node.entries)
+		return nil
+	case *mapBitmapIndexedNode[K, V]:
+		c.Bitmap++
+		if node == nil {
+			return fmt.Errorf("typed-nil bitmap node at depth %d", depth)
+		}
+		if bits.OnesCount32(node.bitmap) != len(node.nodes) {
+			return fmt.Errorf("bitmap node at depth %d: popcount(%#x)=%d but %d children", depth, node.bitmap, bits.OnesCount32(node.bitmap), len(node.nodes))
+		}
+		if len(node.nodes) == 0 {
+			return fmt.Errorf("bitmap node at depth %d without children", depth)
+		}
+		idx := 0
+		for slot := uint32(0); slot < mapNodeSize; slot++ {
+			if node.bitmap&(uint32(1)<<slot) == 0 {
+				continue
+			}
+			child := node.nodes[idx]
+			idx++
+			if child == nil {
+				return fmt.Errorf("bitmap node at depth %d: nil child in slot %d", depth, slot)
+			}
+			var np, nm uint32 = prefix, mask
+			if shift < 32 {
+				np = prefix | (slot << shift)
+				nm = mask | (uint32(mapNodeMask) << shift)
+			} else if slot != 0 {
+				return fmt.Errorf("bitmap node at depth %d: slot %d beyond the hash width", depth, slot)
+			}
+			if err := verifWalk(child, depth+1, np, nm, h, c); err != nil {
+				return err
+			}
+		}
+		return nil
+	case *mapHashArrayNode[K, V]:
+		c.HashArray++
+		if node == nil {
+			return fmt.Errorf("typed-nil hash-array node at depth %d", depth)
+		}
+		cnt := uint(0)
+		for slot, child := range node.nodes {
+			if child == nil {
+				continue
+			}
+			cnt++
+			var np, nm uint32 = prefix, mask
+			if shift < 32 {
+				np = prefix | (uint32(slot) << shift)
+				nm = mask | (uint32(mapNodeMask) << shift)
+			} else if slot != 0 {
+				return fmt.Errorf("hash-array node at depth %d: slot %d beyond the hash width", depth, slot)
+			}
+			if err := verifWalk(child, depth+1, np, nm, h, c); err != nil {
+				return err
+			}
+		}
+		if cnt != node.count {
+			return fmt.Errorf("hash-array node at depth %d: count=%d but %d children", depth, node.count, cnt)
+		}
+		if cnt == 0 {
+			return fmt.Errorf("hash-array node at depth %d without children", depth)
+		}
+		return nil
+	case *mapValueNode[K, V]:
+		c.Value++
+		if node == nil {
+			return fmt.Errorf("typed-nil value node at depth %d", depth)
+		}
+		c.Entries++
+		return checkKey("value node", node.key, node.keyHash, true)
+	case *mapHashCollisionNode[K, V]:
+		c.Collision++
+		if node == nil {
+			return fmt.Errorf("typed-nil collision node at depth %d", depth)
+		}
+		if len(node.entries) < 2 {
+			return fmt.Errorf("collision node at depth %d with %d entries", depth, len(node.entries))
+		}
+		for i := range node.entries {
+			if err := checkKey("collision node", node.entries[i].key, node.keyHash, true); err != nil {
+				return err
+			}
+			for j := 0; j < i; j++ {
+				if h.Eqv(node.entries[i].key, node.entries[j].key) {
+					return fmt.Errorf("collision node holds Eqv keys at %d and %d (%v)", j, i, node.entries[i].key)
+				}
+			}
+		}
+		c.Entries += len(node.entries)
+		c.CollisionEntries += len(node.entries)
+		return nil
+	}
+	return fmt.Errorf("unknown node type %T at depth %d", n, depth)
+}
